@@ -662,18 +662,19 @@ def alloc_rules(rep, mod, results, tagD, pocca, pocma, pocs):
         else:
             rep.ok(key + "#" + tagD, "R10.who", None)
     # allocator value of p0 at normal exit
-    def final_alloc(n):
+    def final_alloc(n, who="p0"):
         vals = set()
         for r in results.get(n, []):
             if r["outcome"] == "ret" and r.get("sim") is not None and any(e[0] in ("write", "writeblk", "ext", "opaque", "alloc") for e in r["events"]):
-                vals.add(r["sim"].objs["p0"].alloc)
+                if who in r["sim"].objs:
+                    vals.add(r["sim"].objs[who].alloc)
         return vals
 
-    def expect(n, fam, pred, msg):
+    def expect(n, fam, pred, msg, who="p0"):
         if n not in results:
             return
-        key = "%s@%s" % (fam, n)
-        vals = final_alloc(n)
+        key = "%s@%s" % (fam, n) + ("" if who == "p0" else "." + who)
+        vals = final_alloc(n, who)
         bad = [v for v in vals if not pred(v)]
         if not vals:
             rep.inconclusive(key + "#" + tagD, fam, "no effectful normal path")
@@ -701,6 +702,9 @@ def alloc_rules(rep, mod, results, tagD, pocca, pocma, pocs):
     for n in ("swap_member", "swap_free"):
         expect(n, "R10.pocs", from_other if pocs else own,
                "propagate_on_container_swap is %s: the allocators must %s" % (pocs, "be exchanged" if pocs else "be kept"))
+        # the other operand of the exchange (eighth seed round: an exchange written with an aliasing temporary leaves both arrays with one allocator)
+        expect(n, "R10.pocs", (lambda v: "'A0', 'p0'" in repr(v)) if pocs else (lambda v: v == ("A0", "p1")),
+               "propagate_on_container_swap is %s: the allocator of the second operand must %s" % (pocs, "become the first operand's" if pocs else "be kept"), who="p1")
     # R10.adopt : at normal exit the storage owned by an array must have been allocated through an allocator value equal to its alloc_
     for n, traces in results.items():
         op = mod.ops[n]
@@ -970,3 +974,88 @@ def reaches(m, callee, targets, depth=0):
                 break
     _reach_cache[k] = r
     return r
+
+
+def destroy_direction(rep, mod, tagD, n=3):
+    """Summary of the destroy primitive `alloc_destroy_n(alloc, p, n)` read off its own body (every callee inlined down to the allocator's destroy, loop
+    unrolled for n elements): it must destroy n distinct consecutive slots, once each, and nothing else; the slots are either p, p+1, .. ("forward": p is the
+    beginning of the range) or p-1, p-2, .. ("backward": p is its end).  Returns "forward" / "backward" / None (violation or undecided, reported)."""
+    from . import absint
+    m = mod.mod
+    full = absint.Interp(m, inline_extra=re.compile(r"."), max_paths=4000, max_depth=120)
+    full.max_visits = n + 3
+    for name, f in sorted(m.funcs.items(), key=lambda kv: kv[1].demangled):
+        d = absint.short(f.demangled)
+        if not re.search(r"(?:^| )(?:xtd::)?alloc_destroy_n\(ObsAlloc&, Tracked\*, long\)$", d):
+            continue
+        key = "R08.prim@alloc_destroy_n(ObsAlloc&, Tracked*, long)"
+        ptypes = [pt for pn, pt, sret in f.params]
+        argv = [("c", n) if pt == "i64" else ("p", ("param", k), 0) for k, pt in enumerate(ptypes)]
+        try:
+            res = full.run(name, argv, {})
+        except absint.Limit as e:
+            rep.inconclusive(key, "R08.prim", "abstract interpretation bound hit: %s" % str(e)[:160])
+            return None
+        dirs, bad = set(), []
+        for oc, rv, path in res:
+            dest = [e[2][1] if len(e[2]) > 1 else None for e in path.events if e[0] == "ext" and re.search(r"::destroy[<(]", str(e[1]))]
+            if oc != "ret":
+                continue
+            if any(not (isinstance(c, tuple) and c[0] == "p" and c[1] == ("param", 1)) for c in dest):
+                bad.append("destroys something that is not a slot relative to its pointer argument: %s" % [typestate.short_t(c, 40) for c in dest][:3])
+                continue
+            offs = sorted(c[2] for c in dest)
+            if len(offs) != n or len(set(offs)) != n or any(b - a != offs[1] - offs[0] for a, b in zip(offs, offs[1:])):
+                bad.append("with count %d it destroys the slots at byte offsets %s (not %d distinct consecutive slots)" % (n, offs, n))
+                continue
+            step = offs[1] - offs[0]
+            if offs[0] == 0:
+                dirs.add("forward")
+            elif offs[-1] == -step:
+                dirs.add("backward")
+            else:
+                bad.append("with count %d it destroys the slots at byte offsets %s: neither [p, p+n) nor [p-n, p)" % (n, offs))
+        if not bad and len(dirs) != 1:
+            bad.append("no normal path with %d destroy events found" % n if not dirs else "paths disagree on the range: %s" % sorted(dirs))
+        if bad:
+            rep.violated(key, "R08.prim", "alloc_destroy_n (%s): %s" % (tagD, bad[0]), dict(function=f.demangled[:200], problems=bad[:4]))
+            return None
+        rep.ok(key + "#" + tagD, "R08.prim", dict(range=sorted(dirs)[0]))
+        return sorted(dirs)[0]
+    rep.break_("R08.prim: no instantiation alloc_destroy_n(ObsAlloc&, Tracked*, long) found")
+    return None
+
+
+def destroy_sites(rep, ops, results, direction, tagD):
+    """Every call of the destroy primitive in the container layer passes the end of the range its summary (destroy_direction) expects: the storage's base
+    pointer itself for a forward primitive, a pointer displaced from the base for a backward one.  (The displacement itself is not decided: the term domain
+    drops non-constant indices.)  Returns the number of classified call sites."""
+    nsites = 0
+    for n, traces in sorted(results.items()):
+        kinds = {}
+        for r in traces:
+            for e in r["events"]:
+                if e[0] != "destroy" or len(e[3]) < 3:
+                    continue
+                t = e[3][1] if not (isinstance(e[3][1], tuple) and e[3][1][:1] == ("ref",) and len(e[3]) > 2) else e[3][2]
+                while isinstance(t, tuple) and len(t) == 2 and t[0] == "@":
+                    t = t[1]
+                if not isinstance(t, tuple) or not t:
+                    continue
+                if t[0] == "init" or (t[0] == "p" and len(t) > 2 and t[2] == 0 and isinstance(t[1], tuple) and t[1][:1] == ("heap",)):
+                    kinds.setdefault("base", typestate.short_t(t, 80))
+                elif t[0] == "gep" or (t[0] == "p" and len(t) > 2 and t[2] != 0):
+                    if typestate.find_storage(t, {}) is not None or "init" in repr(t):
+                        kinds.setdefault("displaced", typestate.short_t(t, 80))
+        for kind, term in sorted(kinds.items()):
+            nsites += 1
+            key = "R08.prim.site@%s" % n
+            want = "base" if direction == "forward" else "displaced"
+            if kind != want:
+                rep.violated(key, "R08.prim.site", "%s (%s): the destroy primitive destroys %s its pointer argument, but this call passes %s (%s)"
+                             % (ops[n]["body"], tagD, "the elements from" if direction == "forward" else "the elements before",
+                                "a pointer displaced from the storage's beginning" if kind == "displaced" else "the beginning of the storage", term),
+                             dict(op=n, primitive_range=direction, argument=term))
+            else:
+                rep.ok(key + "#" + tagD + "#" + kind, "R08.prim.site", None)
+    return nsites
